@@ -13,7 +13,7 @@ PROP = dict(
         "C05_peephole1_sound", "C05_peephole2_sound", "C05_peephole3_sound", "C05_fires_sound",
         "C05_pass_segments", "C05_labels_preserved", "C05_pass_sound_block", "C05_chain_sound_block",
         "C05_pass_label_split", "C05_optimize_label_split", "C05_without_imm_sound", "C05_expand_immediates_sound",
-        "C05_expand_immediates_labels", "C05_optimize_sound_partial",
+        "C05_expand_immediates_labels", "C05_expand_threshold_int", "C05_expand_threshold_float", "C05_optimize_sound_partial",
         "C05_pass_sound", "C05_pass_sound_at_label", "C05_optimize_sound",
     ],
     harness_bin="c05",
@@ -44,7 +44,10 @@ PROP = dict(
          "beyond 15 bits are not fused) and a table-driven program with 65540 distinct int and 65540 distinct float constants followed by one use of "
          "EACH of the 23 immediate-operand instructions whose literal is first mentioned after the 65536th constant of its type "
          "(presence with a late constant is asserted from the dump), executed with operands built from the array length that "
-         "tell it from its neighbours (comparisons: below/equal/above; arithmetic: non-commutative values; power: bases 1, -1, 0); for the directed/intrinsics/probe programs the FINAL instruction list of the compiled program (names + resolved "
+         "tell it from its neighbours (comparisons: below/equal/above; arithmetic: non-commutative values; power: bases 1, -1, 0), and "
+         "the BOUNDARY of the 16-bit immediate index: the literals at pool indices 65534, 65535, 65536, 65537 of the int and of the float "
+         "pool (indices asserted from the compiled program's pool), each as arithmetic operand, comparison operand, stored and pushed "
+         "literal; the driver receives the pool index of every immediate's constant and the model (immIndexFits) decides what fits; for the directed/intrinsics/probe programs the FINAL instruction list of the compiled program (names + resolved "
          "constants) is compared with Opt.expandImmediates of the optimized assembly, and the constant pool with first-occurrence order; "
          "distinct = distinct request; non-trivial = the optimized assembly differs from the input",
     nontrivial=lambda req, imp: imp != " ".join(w for w in req.split(" #")[0].split()[2:] if w[:2] in ("I:", "L:")),
